@@ -2218,8 +2218,18 @@ class BaseInterpreter(Generic[TContext, TEvent]):
             final_state (StateNode): The final state that was just entered.
         """
         ancestor = final_state.parent
+        fired = False
         while ancestor:
-            if ancestor.on_done and self._is_state_done(ancestor):
+            # 🌐 The nearest completed ancestor fires. Above it only PARALLEL
+            #    ancestors are considered: a parallel state completes when its
+            #    last region does, whether or not that region declares an
+            #    `onDone` of its own. Stopping at the first handler made a
+            #    region's `onDone` silently swallow its parallel parent's.
+            if (
+                ancestor.on_done
+                and (not fired or ancestor.type == "parallel")
+                and self._is_state_done(ancestor)
+            ):
                 logger.info(
                     "🎉 State '%s' is done, firing onDone event.", ancestor.id
                 )
@@ -2231,8 +2241,7 @@ class BaseInterpreter(Generic[TContext, TEvent]):
                     src=ancestor.id,
                 )
                 await self.send(done_event)
-                # Per SCXML, only fire for the first completed ancestor.
-                return
+                fired = True
             ancestor = ancestor.parent
 
         # 🏁 A top-level final state completes the machine itself.
